@@ -379,6 +379,7 @@ func c09exec(c *Ctx, w *c09world, t, i int, op c09op) {
 		default:
 			// malformed key/value lists report through the same logger
 			s.Warnw("odd", "dangling")
+			s.Infow("two errors", errors.New("first"), errors.New("second"), "k", t)
 			s.Log(lv, "m", t)
 			s.Logw(lv, "m", 42, "non-string key")
 		}
